@@ -111,7 +111,8 @@ def check1d(case):
     for i in range(len(rA)):
         e = float(np.max(np.abs(np.roll(rA[i], k) - rB[i]))) * dx / fs[i]
         require(np.array_equal(np.isnan(np.roll(rA[i], k)), np.isnan(rB[i])), "rhs-nan-pattern", "NaN pattern of the residual does not shift with the data")
-        require(e <= (1e-12 if not case.get("steep") else 1e-10) + meshtol, "rhs-shift", "equation %d: rhs(roll(q,%d)) differs from roll(rhs(q),%d) by %.3g x scale/dx (%s/%s, %s, n=%d)"
+        # steep data (cell-to-cell ratios up to e^5): extrapolated face values, and with them the effect of the unequal rounded cell sizes, are ~20x larger
+        require(e <= ((1e-12 + meshtol) if not case.get("steep") else (1e-10 + 20 * meshtol)), "rhs-shift", "equation %d: rhs(roll(q,%d)) differs from roll(rhs(q),%d) by %.3g x scale/dx (%s/%s, %s, n=%d)"
                 % (i, k, k, e, md["name"], case["flux"], case["num"].get("limiter", case["num"]["name"]), n))
         worst = max(worst, e)
     target(worst, "rhs-shift-error")
